@@ -54,13 +54,27 @@ class CmpClient:
         self.domain_findings = []   # (kind, node, msg)
 
     # ---------------- evaluator hooks
+    def side_of(self, name, env):
+        """'p' / 'q' if the name denotes one of the two argument vectors (directly or through an alias)"""
+        if name == self.p:
+            return "p"
+        if name == self.q:
+            return "q"
+        v = env.get(name) if name else None
+        if v is not None and v[0] == "vec":
+            return v[1]
+        return None
+
     def lookup(self, node, env, ev):
+        if isinstance(node, ast.Name) and node.id in (self.p, self.q):
+            return [("vec", "p" if node.id == self.p else "q")]
         if isinstance(node, ast.Subscript):
             base = access_path(node.value)
-            if base in (self.p, self.q):
+            sd = self.side_of(base, env)
+            if sd is not None:
                 idx = access_path(node.slice)
                 if idx is not None and env.get(idx) == ("idx",):
-                    return [sym("c", "p" if base == self.p else "q")]
+                    return [sym("c", sd)]
             if base is not None and base.startswith(self.selfn + ".") and "epsilon" in base.lower():
                 # an element of the (positive, by the property's assumption) epsilon list:
                 # identified by the index expression and the values of its variables
@@ -69,6 +83,26 @@ class CmpClient:
         return None
 
     def call(self, node, env, ev):
+        nm = access_path(node.func) or ""
+        if nm in ("sum", "np.sum", "numpy.sum", "math.fsum") and len(node.args) == 1 and isinstance(node.args[0], ast.Subscript):
+            base = access_path(node.args[0].value)
+            sd = self.side_of(base, env)
+            if sd is not None and self.slice_kind(node.args[0]) is True:
+                self.uses_agg = True
+                return [("agg", "c", sd)]
+        return None
+
+    @staticmethod
+    def slice_kind(node):
+        if isinstance(node, ast.Subscript) and isinstance(node.slice, ast.Slice):
+            sl = node.slice
+            try:
+                lo = 0 if sl.lower is None else fold(sl.lower)
+                hi = None if sl.upper is None else fold(sl.upper)
+                st = 1 if sl.step is None else fold(sl.step)
+            except ValueError:
+                return None
+            return lo == 0 and hi == -1 and st == 1
         return None
 
     # ---------------- derived sequences (pre-scaled copies of the objective vectors)
@@ -120,7 +154,9 @@ class CmpClient:
         return None
 
     # ---------------- loops
-    def classify(self, node):
+    def classify(self, node, env=None):
+        env = env or {}
+        self._env = env
         it = node.iter
         tgt = node.target
         if isinstance(it, ast.Call) and access_path(it.func) == "enumerate" and len(it.args) == 1 \
@@ -160,16 +196,18 @@ class CmpClient:
             sides = []
             dom = True
             for x in (a, b):
-                for nm, side in ((self.p, "p"), (self.q, "q")):
-                    r = is_obj_slice(x, nm)
+                base = access_path(x.value) if isinstance(x, ast.Subscript) else access_path(x)
+                side = self.side_of(base, getattr(self, "_env", {}))
+                if side is None:
+                    continue
+                if isinstance(x, ast.Subscript):
+                    r = self.slice_kind(x)
                     if r is not None:
                         sides.append(side)
                         dom = dom and r
-                        break
-                    if access_path(x) == nm:
-                        sides.append(side)
-                        dom = None if dom else dom
-                        break
+                else:
+                    sides.append(side)
+                    dom = None if dom else dom
             if len(sides) == 2 and set(sides) == {"p", "q"}:
                 return ({sides[0]: tgt.elts[0].id, sides[1]: tgt.elts[1].id}, None, dom)
         return None
@@ -177,7 +215,7 @@ class CmpClient:
     def loop(self, node, env, ref):
         if not isinstance(node, ast.For):
             return None
-        c = self.classify(node)
+        c = self.classify(node, env)
         if c is None:
             return None
         self.loops[node] = c
@@ -252,12 +290,15 @@ def analyse(ctx, repo, clsname, eps_mode):
     dom_seen = {}
     unsupported = None
     notes = set()
-    for a, b in itertools.product(MARKERS, MARKERS):
+    has_agg = any(isinstance(c_, ast.Call) and (access_path(c_.func) or "") in ("sum", "np.sum", "numpy.sum", "math.fsum") for c_ in ast.walk(fn))
+    for (a, b), aggrel in itertools.product(itertools.product(MARKERS, MARKERS), ("<", "=", ">") if has_agg else (None,)):
         client = CmpClient(fn)
         ev = Evaluator(hooks=client)
         client.ev = ev
         interp = Interp(ev, client)
         env = {"%s[-1]" % client.p: fin(a), "%s[-1]" % client.q: fin(b)}
+        if aggrel is not None:
+            env[("aggrel", "c")] = aggrel
         try:
             outs = interp.run(fn.body, env, (False, False))
         except Unsupported as e:
@@ -269,8 +310,43 @@ def analyse(ctx, repo, clsname, eps_mode):
         for k, node, msg in client.domain_findings:
             dom_seen[(k, node.lineno, msg)] = node
         for o in outs:
+            o.ref0 = o.ref
+            if aggrel is not None and "$" in o.word:
+                # floating-point sums are monotone but not strictly: p <= q coordinate-wise gives fl-sum(p) <= fl-sum(q),
+                # and a strict coordinate can be absorbed.  Keep only (sum relation, word) combinations that floats can realise.
+                pb, qb = o.ref
+                allowed = {"="} if not (pb or qb) else ({"<", "="} if (pb and not qb) else ({">", "="} if (qb and not pb) else {"<", "=", ">"}))
+                if len(o.word) == 0:
+                    allowed = {"="}
+                if aggrel not in allowed:
+                    continue
+                notes.add("the verdict depends on floating-point sums of the objectives (relation fl-sum(p) %s fl-sum(q) with this word is realisable because a small strictly better coordinate can be absorbed by a large one)" % aggrel)
             n_out += 1
+            complete = "$" in o.word
+            o.word = tuple(x for x in o.word if x != "$")
             want = reference(a, b, o.ref)
+            if not complete and not (a != b and abs(a) != abs(b)) and not (a != b and (a == 0 or b == 0)):
+                # the function returned before the objective sequence was consumed: the verdict must be right for
+                # EVERY continuation of the word (the reference state must be absorbing with this verdict)
+                exts = [(pb2, qb2) for pb2 in (True, False) for qb2 in (True, False) if pb2 >= o.ref[0] and qb2 >= o.ref[1]]
+                if aggrel is not None:
+                    def ok_agg(r2):
+                        pb2, qb2 = r2
+                        al = {"="} if not (pb2 or qb2) else ({"<", "="} if (pb2 and not qb2) else ({">", "="} if (qb2 and not pb2) else {"<", "=", ">"}))
+                        return aggrel in al
+                    exts = [r2 for r2 in exts if ok_agg(r2)]
+                wants = {reference(a, b, r2) for r2 in exts}
+                got0 = o.value[1] if (o.kind == "return" and o.value[0] == "fin") else None
+                if len(wants) > 1 or (wants and got0 not in wants):
+                    bad_ext = [r2 for r2 in exts if reference(a, b, r2) != got0]
+                    if bad_ext and not (eps_mode and got0 in (1, 2) and all(r2 == (False, False) for r2 in bad_ext)):
+                        # choose a concrete continuation as witness
+                        r2 = bad_ext[0]
+                        o.ref = r2
+                        o.word = o.word + (("<",) if (r2[0] and not o.ref0[0]) else ()) + ((">",) if (r2[1] and not o.ref0[1]) else ()) \
+                            + (("=",) if r2 == o.ref0 and not o.word else ())
+                        want = reference(a, b, r2)
+                        notes.add("an early return (before all objectives were looked at) fixes the verdict although later coordinates can still change it")
             if eps_mode and want == 0 and o.ref == (False, False) and a == b or (eps_mode and want == 0 and o.ref == (False, False) and abs(a) == abs(b)):
                 acceptable = {1, 2}          # identical boxes: a loser must be named
             else:
